@@ -85,6 +85,9 @@ PlanOf(name) ==
          [Small EXCEPT !.ops = {"AddImage", "RenderString", "Reopen"},
                        !.Toks = {"P1"}, !.SizeNs = {"wh"}, !.Lays = {"alone", "around"},
                        !.DataNs = {"d1", "d2", "d3", "d4"}, !.StrTpls = {"two", "same", "rev", "one"}, !.dq = 1, !.dt = 2]
+    [] name = "tcells" ->       \* several placeholders in one cell
+         [Small EXCEPT !.ops = {"AddTable", "AddCellPlaceholder", "Render"}, !.Cells = {<<0, 1>>}, !.Slots = {1, 2},
+                       !.Lays = {"alone", "around"}, !.dq = 4, !.dt = 5]
     [] name = "setters" ->      \* the setters on ImageInfo handles and failing cell calls change nothing
          [Small EXCEPT !.ops = {"AddImage", "AddTable", "AddCellImage", "BadCell", "Info", "Save", "Reopen"}, !.Toks = {"P1"},
                        !.SizeNs = {"wh"}, !.Cells = {<<0, 0>>}, !.InfoNs = InfoOps, !.Hs = {"nil", "last", "first"}, !.dq = 2, !.dt = 3]
